@@ -59,11 +59,22 @@ def main():
 
 
 def generic_replay(path):
+    """Print the recorded case, re-run the property's quick check on the current tree and report whether the
+    same signature is raised again (exit 1) or not (exit 0)."""
     import json
+    import subprocess
     with open(path) as f:
         r = json.load(f)
-    print(json.dumps(r, indent=1)[:4000])
-    return 0
+    print(json.dumps(r, indent=1)[:6000])
+    prop, sig = r["property"], r["signature"]
+    here = os.path.dirname(os.path.dirname(os.path.abspath(__file__)))
+    p = subprocess.run([os.path.join(here, "check"), prop, "--tier", "quick"], stdout=subprocess.PIPE, stderr=subprocess.STDOUT)
+    out = p.stdout.decode("utf-8", "replace")
+    again = ("signature: %s" % sig) in out or ("KNOWN-FINDING: property=%s %s " % (prop, sig)) in out
+    print("replay: signature %s %s on the current tree" % (sig, "REPRODUCES" if again else "does not reproduce"))
+    if again:
+        print("VIOLATION property=%s replay=%s" % (prop, path))
+    return 1 if again else 0
 
 
 if __name__ == "__main__":
